@@ -202,6 +202,50 @@ def _replay_task(args):
         return path, "error", "".join(traceback.format_exception(type(e), e, e.__traceback__))[-2000:]
 
 
+def _child_main(fn, task, conn):
+    try:
+        conn.send(fn(task))
+    finally:
+        conn.close()
+
+
+def run_in_children(fn, tasks, on_death):
+    """Run fn(task) for every task, each in its own forked process, at most NPROC at a time.  A child that dies without an
+    answer (killed by the kernel for memory, a crash of the interpreter) yields on_death(task, reason) instead of a hang:
+    multiprocessing.Pool never notices a lost worker."""
+    from multiprocessing.connection import wait
+    ctx = mp.get_context("fork")
+    pending = list(tasks)
+    running = {}
+    out = []
+    while pending or running:
+        while pending and len(running) < NPROC:
+            t = pending.pop(0)
+            rd, wr = ctx.Pipe(duplex=False)
+            pr = ctx.Process(target=_child_main, args=(fn, t, wr))
+            pr.start()
+            wr.close()
+            running[pr] = (t, rd)
+        wait([c for (_, c) in running.values()] + [pr.sentinel for pr in running], timeout=5.0)
+        for pr in list(running):
+            t, rd = running[pr]
+            got = None
+            if rd.poll():
+                try:
+                    got = ("ok", rd.recv())
+                except (EOFError, OSError) as e:
+                    got = ("dead", f"no answer ({type(e).__name__})")
+            elif not pr.is_alive():
+                got = ("dead", f"process ended with exit code {pr.exitcode} without an answer")
+            if got is None:
+                continue
+            pr.join()
+            rd.close()
+            del running[pr]
+            out.append(got[1] if got[0] == "ok" else on_death(t, got[1]))
+    return out
+
+
 def validate_evidence(ev):
     schema_path = "/root/.vp/EVIDENCE.schema.json"
     try:
@@ -270,8 +314,8 @@ def main(argv):
     # (each replay runs in its own forked child: the runner process itself never calls the library, so that the shard processes
     #  forked from it start from a state no library call has touched - module-level caches would otherwise be inherited)
     if replays:
-        with mp.get_context("fork").Pool(min(NPROC, len(replays)), maxtasksperchild=1) as pool:
-            replay_results = pool.map(_replay_task, [(pid, path) for path in replays])
+        replay_results = run_in_children(_replay_task, [(pid, path) for path in replays],
+                                         lambda t, why: (t[1], "error", f"replay process: {why}"))
     else:
         replay_results = []
     for path, ok, msg in replay_results:
@@ -295,10 +339,9 @@ def main(argv):
             tasks.append((pid, s.name, tier, seed, sh, ns))
     results = []
     if tasks:
-        ctx = mp.get_context("fork")
-        with ctx.Pool(min(NPROC, len(tasks)), maxtasksperchild=1) as pool:
-            for r in pool.imap_unordered(run_shard, tasks):
-                results.append(r)
+        results = run_in_children(run_shard, tasks, lambda t, why: {
+            "sub": t[1], "evaluations": 0, "nt": [], "classes": {}, "samples": [], "excluded_known": {}, "best": None,
+            "error": f"shard {t[4]}/{t[5]} of {t[1]}: {why}", "wall_s": 0.0})
 
     per_sub_fail = {}
     for r in results:
